@@ -64,6 +64,34 @@ def ob_generate(n, mode):
     return f
 
 
+class EvaluationFailed(Exception):
+    pass
+
+
+def ob_failing_evaluation(mode, n):
+    """an objective that raises makes a serial run fail with that exception; a pooled run must not swallow it and go
+    on with a smaller population (the failing call index and the completion order are solver choices)"""
+    def f():
+        st = stubs.Stream("np")
+        layers = [stubs.numpy_stream_layer(lambda: st)] + ([stubs.pool_layer()] if mode != "serial" else [])
+        with env(*layers):
+            bad = sym.choice_index("failing-call", n)
+
+            def obj(x, i):
+                if i == bad:
+                    raise EvaluationFailed(f"evaluation #{i}")
+                return float(i)
+            t = make_task([cont()], obj)
+            opt = Scripted(M.BaseOptimizationConfig(population_size=n, fitness_error=None, max_cycles=1))
+            try:
+                res = opt.optimize(t, mode=mode, workers=2)
+            except EvaluationFailed:
+                return OK
+            return Failure("failed-evaluation-swallowed", mode=mode, failing_call=bad,
+                           sizes=[len(g.agents) for g in res.evolution])
+    return f
+
+
 def ob_greedy(k, mode):
     def f():
         with env(stubs.pool_layer()):
@@ -178,6 +206,8 @@ def obligations(tier):
         obs.append(Ob(f"optimize[{mode},n=2]", ob_optimize(mode, 2), 900))
         # "for any worker count": number of agents and worker count are solver variables (no evaluation lost)
         obs.append(Ob(f"any_worker_count[{mode}]", ob_generate_workers(mode, 12 if th else 8, 6 if th else 5), 900))
+    for mode in ("serial", "thread", "process"):
+        obs.append(Ob(f"failing_evaluation[{mode},n=3]", ob_failing_evaluation(mode, 3), 300))
     for n in (2, 3):
         obs.append(Ob(f"fork_rng[n={n},thread]", ob_fork_rng(n, 2, "thread"), 120))
         for w in (1, 2) + ((3,) if th else ()):
